@@ -398,6 +398,60 @@ def c08(res, tier, seed, deep):
             var.append(" ".join(p[:3] + ["-"] + p[4:]))
         var.append(" ".join([p[0], "b" if p[1] == "w" else "w"] + p[2:3] + ["-"] + p[4:]))
     fens += var
+    # TRADES of a non-placement component for a man on the square that component is about: the en-passant target dropped and a
+    # pawn (either colour) put on the target square, or the double-stepped pawn removed; a castling right dropped and the
+    # rook of that corner removed, or a rook put on an empty corner without the right.  A key table shared between two kinds
+    # of feature (en-passant key = the key of a pawn on that square, castling key = the corner rook's key) makes exactly
+    # such a pair collide, for every seed, while every one-component variant still separates
+    def cells_of(board):
+        cells = {}
+        for r, row in enumerate(board.split("/")):
+            f = 0
+            for ch in row:
+                if ch.isdigit():
+                    f += int(ch)
+                else:
+                    cells[(7 - r) * 8 + f] = ch
+                    f += 1
+        return cells
+    def board_of(cells):
+        rows = []
+        for r in range(7, -1, -1):
+            row, run = "", 0
+            for f in range(8):
+                c = cells.get(r * 8 + f)
+                if c is None:
+                    run += 1
+                else:
+                    row += (str(run) if run else "") + c
+                    run = 0
+            rows.append(row + (str(run) if run else ""))
+        return "/".join(rows)
+    trades = []
+    for f in epd + rnd.sample(epl, min(len(epl), 400)) + rnd.sample(base, min(len(base), 300)):
+        p = f.split(" ")
+        cells = cells_of(p[0])
+        if p[3] != "-":
+            t = sq(p[3])
+            victim = t - 8 if p[1] == "w" else t + 8
+            for ch in "pP":
+                c2 = dict(cells)
+                c2[t] = ch
+                trades.append(" ".join([board_of(c2), p[1], p[2], "-"] + p[4:]))
+            c2 = dict(cells)
+            c2.pop(victim, None)
+            trades.append(" ".join([board_of(c2), p[1], p[2], "-"] + p[4:]))
+        for letter, corner, rook in (("K", 7, "R"), ("Q", 0, "R"), ("k", 63, "r"), ("q", 56, "r")):
+            if letter in p[2]:
+                c2 = dict(cells)
+                c2.pop(corner, None)
+                trades.append(" ".join([board_of(c2), p[1], p[2].replace(letter, "") or "-", p[3]] + p[4:]))
+            elif corner not in cells:
+                c2 = dict(cells)
+                c2[corner] = rook
+                trades.append(" ".join([board_of(c2), p[1], p[2], p[3]] + p[4:]))
+    res.tags["component_trade_variants"] = len(trades)
+    fens += trades
     # hash (and evaluation) of successor OBJECTS built by make-move, never re-read from FEN (anything cached or updated
     # incrementally inside the position object would show here and nowhere else): every legal move of a sample
     oreqs = [f"objafter {rnd.choice([0, seed])} {f}" for f in epd + rnd.sample(base, min(len(base), 400 if tier == "thorough" else 120))]
@@ -432,7 +486,7 @@ def c08(res, tier, seed, deep):
                     nontrivial=(s != "-" and len(by_key.get(s, {})) >= 1))
         res.tags["keys_with_several_positions"] = sum(1 for k, v in by_key.items() if sum(1 for _ in v) >= 1)
     res.tags["positions_per_seed"] = len(fens)
-    return "positions from play plus all positions 1-3 plies below a sample (transposing move orders), and one-component variants (counters, every subset of the castling rights, en-passant target dropped, side swapped; only legal variants count); for 3 hasher seeds every pair is checked: equal rule-relevant key <=> equal hash; and the hash is compared with the Lean model drawing its keys from the ChaCha8 model"
+    return "positions from play plus all positions 1-3 plies below a sample (transposing move orders), and one-component variants (counters, every subset of the castling rights, en-passant target dropped, side swapped; component trades: ep target ↔ a pawn on the target square / the double-stepped pawn removed, castling right ↔ the corner rook; only legal variants count); for 3 hasher seeds every pair is checked: equal rule-relevant key <=> equal hash; and the hash is compared with the Lean model drawing its keys from the ChaCha8 model"
 
 
 def mirror_fen(f):
@@ -991,6 +1045,21 @@ def c04(res, tier, seed, deep):
         mm = re.match(r"joined events=(\d+)", o)
         if mm:
             res.tags["lazy_consumer_max_events"] = max(res.tags.get("lazy_consumer_max_events", 0), int(mm.group(1)))
+    # Stop sent to a search WITHOUT depth limit whose iterations stay tiny for ever (F11): every legal move of the root leads to
+    # a position that was searched before on the same artifact (one to three legal moves; an analysis session stepping back and
+    # forth does this), so every iteration costs a handful of nodes and no worker ever reaches its 10000-node poll
+    few = [(f, ms) for f, ms in model_moves(["8/8/8/8/8/8/8/K1k5 w - - 0 1", "k7/2Q5/8/8/8/8/8/7K b - - 3 9"] + pool[:400]) if 1 <= len(ms) <= 3]
+    few = few[: (12 if (tier == "thorough" or deep) else 4)]
+    sq_reqs = []
+    for f, ms in few:
+        so2, _, _ = wee.run_driver([f"apply {m[1]} {f}" for m in ms], jobs=1)
+        succs = [m_.replace(" ", "_") for (m_, sp_) in so2 if not m_.startswith("err") and m_ not in ("panic", "badfen")]
+        if len(succs) == len(ms):
+            sq_reqs.append(f"stopseq {rnd.getrandbits(32)} - {rnd.choice([0, 50, 300])} {len(succs)} " + " ".join(succs) + " " + f)
+    qout, _, _ = wee.run_lines(wee.harness_path(), sq_reqs, timeout=900, per_request_timeout=60)
+    for r, o in zip(sq_reqs, qout):
+        res.add(r, o, o, "joined", (lambda x: "joined" if x.startswith("joined") else x))
+        res.tag("unlimited_tiny_iteration_stops")
     sout, _, _ = wee.run_lines(wee.harness_path(), sreqs, timeout=1800, per_request_timeout=60)
     worst = 0
     for r, o in zip(sreqs, sout):
@@ -1301,6 +1370,10 @@ def c18(res, tier, seed, deep):
         combos = [(g, m) for g in game1s for m in middles]
         if not (tier == "thorough" or deep):
             combos = [combos[0]] + rnd.sample(combos[1:], 7)
+        else:
+            # MANY new games between game 1 and the probe (255, 256, 257, 512 × ucinewgame): a reset that is a counter of
+            # limited width instead of a fresh memory comes round again
+            combos += [(game1s[0], [("ucinewgame", 0)] * (k - 1)) for k in (255, 256, 257, 512)]
         for g, m in combos:
             cmds = g + [("ucinewgame", 0)] + m + probe
             c1 = {}
@@ -1365,6 +1438,22 @@ def c14_uci(res, tier, seed, deep):
                 ("go depth " + str(rnd.choice([1, 2, 3])), 0), ("isready", 0.4), ("stop", 0), ("isready", 0),
                 ("go movetime 50", 0), ("isready", 0.3), ("ucinewgame", 0), ("isready", 0)]
         sessions.append((f"illegal-position-{j}", cmds, False))
+    # a REJECTED command sent again: `position <base> moves m1 … mk X` where every token is well-formed but X is not legal after
+    # m1 … mk (answered `info string invalid move`), then the same line once more, then the same line with more moves appended,
+    # then the legal prefix alone and a search — a handler that keeps anything from the command it rejected meets it here
+    def resend_session(pl, r):
+        f = r.choice([None] + uci_proc.NONBOOK)
+        lans, _ = uci_proc.random_walk(pl, r, f if f else "rnbqkbnr/pppppppp/8/8/8/8/PPPPPPPP/RNBQKBNR w KQkq - 0 1", r.randrange(0, 5))
+        base = "position " + ("fen " + f if f else "startpos")
+        bad = r.choice(["e1e3", "a1a1", "e1h1", "e8h8", "h7h8q", "e2e5", "b1b3", "d1d8", "a2a1q", "g8g6"])
+        rejected = base + " moves " + " ".join(lans + [bad])
+        more = r.choice(["e7e5", "g8f6", "a7a6", "e2e4", "b1c3"])
+        cmds = [(rejected, 0), ("isready", 0), (rejected, 0), ("isready", 0), (rejected + " " + more, 0), ("isready", 0),
+                (rejected, 0), (base + (" moves " + " ".join(lans) if lans else ""), 0), ("isready", 0),
+                ("go depth 1", 0), ("isready", 0.3), ("stop", 0), (rejected + " " + more + " " + more, 0), ("isready", 0)]
+        return cmds
+    for j in range(24 if tier == "thorough" else (10 if deep else 5)):
+        sessions.append((f"rejected-resent-{j}", (lambda pl, r=random.Random(rnd.getrandbits(32)): resend_session(pl, r)), False))
     # liveness only: outside C07's command grammar (e.g. `go depth 0`) no bestmove is owed
     run_sessions(res, "uci_garbage_sessions", sessions, strict_bestmove=False)
 
@@ -1446,6 +1535,74 @@ def random_placement(rnd):
     return "/".join(rows) + f" {rnd.choice('wb')} - - 0 1"
 
 
+def promotion_line_family(rnd, count):
+    """a pawn one step from promotion whose promotion square lies ON A LINE an enemy slider looks along (back rank, or a
+    diagonal through the square) — the quiet promotion interposes on that line, the capture-promotions change it — with the
+    mover's king beyond the square, elsewhere on the line, or off it; both colours.  After such a move every attack set that
+    was computed for the position before is wrong for the position after.  Kept when legal (model)."""
+    cands = []
+    for _ in range(count * 5):
+        cells = {}
+        f = rnd.randrange(8)
+        cells[6 * 8 + f] = "P"
+        T = 7 * 8 + f
+        # enemy slider on the back rank or on a diagonal through T
+        line = rnd.choice(["rank", "diag"])
+        if line == "rank":
+            sf = rnd.choice([x for x in range(8) if x != f])
+            cells[7 * 8 + sf] = rnd.choice("rq")
+            beyond = [7 * 8 + x for x in (range(f + 1, 8) if sf < f else range(0, f))]
+        else:
+            d = rnd.choice([-1, 1])
+            k = rnd.randrange(1, 7)
+            sfile, srank = f + d * k, 7 - k
+            if not (0 <= sfile <= 7 and srank >= 0) or srank * 8 + sfile in cells:
+                continue
+            cells[srank * 8 + sfile] = rnd.choice("bq")
+            beyond = []
+        mode = rnd.random()
+        if beyond and mode < 0.5:
+            cells[rnd.choice(beyond)] = "K"
+        else:
+            for _ in range(30):
+                ks = rnd.randrange(64)
+                if ks not in cells and ks != T:
+                    cells[ks] = "K"
+                    break
+        for _ in range(30):
+            ks = rnd.randrange(48)
+            if ks not in cells:
+                cells[ks] = "k"
+                break
+        # capture-promotion targets and some bystanders
+        for ch in rnd.choices("nrbpNB", k=rnd.randrange(0, 4)):
+            for _ in range(20):
+                s2 = rnd.randrange(64)
+                if s2 not in cells and s2 != T and not (ch in "pP" and s2 // 8 in (0, 7)):
+                    cells[s2] = ch
+                    break
+        white = rnd.random() < 0.5
+        if not white:
+            cells = {(7 - s0 // 8) * 8 + s0 % 8: c.swapcase() for s0, c in cells.items()}
+        rows = []
+        for r in range(7, -1, -1):
+            row, run = "", 0
+            for ff in range(8):
+                c = cells.get(r * 8 + ff)
+                if c is None:
+                    run += 1
+                else:
+                    row += (str(run) if run else "") + c
+                    run = 0
+            rows.append(row + (str(run) if run else ""))
+        cands.append("/".join(rows) + f" {'w' if white else 'b'} - - 0 1")
+    cands = sorted(set(cands))
+    leg, _, _ = wee.run_driver(["legalpos " + c for c in cands], jobs=8)
+    keep = [c for c, (m, sp) in zip(cands, leg) if sp == "1"]
+    rnd.shuffle(keep)
+    return keep[:count]
+
+
 def c10(res, tier, seed, deep):
     n = 30000 if tier == "thorough" else (10000 if deep else 4000)
     rnd = random.Random(seed)
@@ -1466,8 +1623,15 @@ def c10(res, tier, seed, deep):
     if not (tier == "thorough" or deep):
         epf = random.Random(seed + 8).sample(epf, min(len(epf), 1200))
     reqs += ["checkafter " + f for f in epf + fens[: (6000 if tier == "thorough" else 1500)]]
+    # … and the ATTACK SETS of the successor objects, with the predecessor's sets queried BEFORE the move is made (as a game or a
+    # search does): nothing computed for the position before may survive into the object after.  Promotions onto a line an
+    # enemy slider looks along (the promotion square is not the origin of any moving piece), en-passant captures, play positions
+    plf = promotion_line_family(random.Random(seed + 9), 1500 if (tier == "thorough" or deep) else 300)
+    res.tags["promotion_line_positions"] = len(plf)
+    reqs += ["attacksafter " + f for f in plf + epf[: (len(epf) if (tier == "thorough" or deep) else 300)] + fens[: (3000 if tier == "thorough" else 500)]]
+    reqs += ["checkafter " + f for f in plf]
     wee.compare_batch(res, reqs, SPEC_VIEWS)
-    return "legal positions (as C01) and arbitrary placements; successor objects of every legal move of generated positions and of the systematic en-passant family (State::is_check / Board::is_check on the object make-move built); per position a random order of the seven queries (all/pawn attacks and check for both colours, State::is_check) with repeats and clones of the position object interleaved; distinct = distinct request lines"
+    return "legal positions (as C01) and arbitrary placements; successor objects of every legal move of generated positions and of the systematic en-passant family (State::is_check / Board::is_check on the object make-move built); per position a random order of the seven queries (all/pawn attacks and check for both colours, State::is_check) with repeats and clones of the position object interleaved; attack sets and check flags of the successor objects of every legal move after the predecessor's sets were queried (promotion-onto-a-slider-line family, en-passant family, play positions); distinct = distinct request lines"
 
 
 def rights_variants(fen, rnd):
@@ -1480,6 +1644,35 @@ def rights_variants(fen, rnd):
         sub = "".join(ch for i, ch in enumerate(letters) if mask >> i & 1) or "-"
         out.append(" ".join(parts[:2] + [sub] + parts[3:]))
     return out
+
+
+def play_lines(rnd, starts, plies):
+    """random legal walks of the MODEL, all lines advanced in lockstep (one driver batch per ply): [(start fen, [raw …])];
+    en-passant captures, castling and promotions are taken with high probability when they are available"""
+    cur = list(starts)
+    lines = [[] for _ in starts]
+    alive = [True] * len(starts)
+    for _ in range(plies):
+        idx = [i for i in range(len(cur)) if alive[i]]
+        if not idx:
+            break
+        mv = model_moves([cur[i] for i in idx])
+        picks = []
+        for i, (f, ms) in zip(idx, mv):
+            if not ms:
+                alive[i] = False
+                continue
+            special = [m for m in ms if m[2][6] == "1" or m[2][8] != "-" or m[2][5] != "0"]
+            m = rnd.choice(special) if (special and rnd.random() < 0.7) else rnd.choice(ms)
+            picks.append((i, m[1]))
+        so, _, _ = wee.run_driver([f"apply {raw} {cur[i]}" for i, raw in picks], jobs=4)
+        for (i, raw), (m, sp) in zip(picks, so):
+            if m.startswith("err") or m == "panic" or m == "badfen":
+                alive[i] = False
+                continue
+            lines[i].append(raw)
+            cur[i] = m
+    return [(f, l) for f, l in zip(starts, lines) if l]
 
 
 def c11(res, tier, seed, deep):
@@ -1506,14 +1699,92 @@ def c11(res, tier, seed, deep):
     reqs = [f"fen {hexs(f)}" for f in mixed]
     res.tags["malformed_interleaved"] = len(mixed) - len(allf)
     wee.compare_batch(res, reqs, SPEC_VIEWS)
-    # same position ⇒ same moves: parse∘write is the identity on FEN text, so moves/hash/eval agree
-    # trivially through the same parser; checked explicitly on a sample through `moves`
-    return "canonical FEN of positions reached by play (spec writer, independent of the code), all subsets of the castling rights held, en-passant squares on both ranks (from play), extreme counters up to 2^64-1, interleaved with malformed strings read by the same thread (no state may leak from one read to the next); the spec accepts exactly canonical strings and demands character-for-character reproduction"
+    # the first clause of C11 on OBJECTS REACHED BY PLAY IN THE REAL CODE: lines of moves are made one after the other with the
+    # public make-move (the object is never re-read; every object on the way is queried first, as a game does), and after every
+    # ply the object and the object re-read from its own FEN must answer alike: FEN, legal moves in order, hash, evaluation from
+    # both sides.  Lines start from the en-passant families (the capture is taken when available), castling positions,
+    # positions from play; special moves (en passant, castling, promotions) are preferred.
+    epl = ep_family_legal()
+    starts = rnd.sample(epl, min(len(epl), 1200 if (tier == "thorough" or deep) else 250)) \
+        + castle_transit_family(rnd, 60 if (tier == "thorough" or deep) else 20) \
+        + rnd.sample(fens, min(len(fens), 400 if (tier == "thorough" or deep) else 100))
+    pl = play_lines(rnd, starts, 10 if (tier == "thorough" or deep) else 7)
+    preqs = [f"playline {rnd.getrandbits(16)} {f.replace(' ', '_')} " + " ".join(str(r) for r in l) for f, l in pl]
+    pimpl, _, _ = wee.run_lines_parallel(wee.harness_path(), preqs, jobs=8, timeout=900)
+    pdrv, _, _ = wee.run_driver(preqs, jobs=14)
+    pimpl += ["<no-output>"] * (len(preqs) - len(pimpl))
+    for r, i, (m, sp) in zip(preqs, pimpl, pdrv):
+        res.add(r, i, m, "reread-same", (lambda x: "reread-same" if ("REREAD-DIFFERS" not in x and "nomove" not in x and "error" not in x and "<" not in x) else "object reached by play differs from its own FEN read back: " + x[x.find("REREAD-DIFFERS") - 120:][:400]))
+        res.tag("played_lines")
+    res.tags["played_plies"] = sum(len(l) for f, l in pl)
+    return "canonical FEN of positions reached by play (spec writer, independent of the code), all subsets of the castling rights held, en-passant squares on both ranks (from play), extreme counters up to 2^64-1, interleaved with malformed strings read by the same thread (no state may leak from one read to the next); the spec accepts exactly canonical strings and demands character-for-character reproduction; lines of 7-10 moves played on the real objects (en-passant families, castling, promotions preferred), after every ply the object vs the object re-read from its FEN: same FEN, legal moves, hash, evaluations"
+
+
+def castle_check_family(rnd, count):
+    """positions in which CASTLING GIVES CHECK OR MATE (the rook lands on the enemy king's file with nothing in between; the
+    king is boxed in by its own men with some probability): both colours, both sides.  SAN spells these `O-O+`, `O-O#`,
+    `O-O-O+`, `O-O-O#` — the only spellings in which a castle carries a suffix.  Kept when the model finds the castle legal."""
+    cands = []
+    for _ in range(count * 60):
+        black = rnd.random() < 0.5
+        kingside = rnd.random() < 0.5
+        home = 7 if black else 0
+        cells = {home * 8 + 4: "K", home * 8 + (7 if kingside else 0): "R"}
+        rf = 5 if kingside else 3                       # file the rook lands on
+        dist = rnd.randrange(2, 8)                      # enemy king that many ranks away on that file
+        kr = home - dist if black else home + dist
+        ks = kr * 8 + rf
+        cells[ks] = "k"
+        for df in (-1, 0, 1):
+            for dr in (-1, 0, 1):
+                f2, r2 = rf + df, kr + dr
+                if (df, dr) == (0, 0) or not (0 <= f2 <= 7 and 0 <= r2 <= 7):
+                    continue
+                s2 = r2 * 8 + f2
+                between = f2 == rf and (home < r2 < kr or kr < r2 < home)
+                if s2 in cells or between or r2 == home:
+                    continue
+                if rnd.random() < 0.85:
+                    ch = rnd.choice("ppprrnb")
+                    if ch == "p" and r2 in (0, 7):
+                        ch = "r"
+                    cells[s2] = ch
+        if black:
+            cells = {s: c.swapcase() for s, c in cells.items()}
+        rows = []
+        for r in range(7, -1, -1):
+            row, run = "", 0
+            for f in range(8):
+                c = cells.get(r * 8 + f)
+                if c is None:
+                    run += 1
+                else:
+                    row += (str(run) if run else "") + c
+                    run = 0
+            rows.append(row + (str(run) if run else ""))
+        right = ("k" if kingside else "q") if black else ("K" if kingside else "Q")
+        cands.append("/".join(rows) + f" {'b' if black else 'w'} {right} - 0 1")
+    cands = sorted(set(cands))
+    leg, _, _ = wee.run_driver(["legalpos " + f for f in cands], jobs=8)
+    cands = [f for f, (m, sp) in zip(cands, leg) if sp == "1"]
+    mm = [(f, [m for m in ms if m[2][8] != "-"]) for f, ms in model_moves(cands)]
+    keep = [(f, {m[1] for m in cs}) for f, cs in mm if cs]
+    # which of them MATE by castling (`matekinds` lists the mating moves of a position)
+    mk, _, _ = wee.run_driver(["matekinds " + f for f, cs in keep], jobs=8)
+    mates = [f for (f, cs), (m, sp) in zip(keep, mk) if any(t.split(":")[0].isdigit() and int(t.split(":")[0]) in cs for t in sp.split(" "))]
+    others = [f for f, cs in keep if f not in set(mates)]
+    rnd.shuffle(mates)
+    rnd.shuffle(others)
+    mates = mates[: count // 2]
+    return mates + others[: count - len(mates)]
 
 
 def c12(res, tier, seed, deep):
     n = 4000 if tier == "thorough" else (1200 if deep else 500)
     fens = positions(seed + 7, n)
+    ccf = castle_check_family(random.Random(seed + 77), 120 if (tier == "thorough" or deep) else 40)
+    res.tags["castle_with_check_positions"] = len(ccf)
+    fens = fens + ccf
     rc, out, err = wee.run([wee.DRIVER, "sanreqs"], input_text="\n".join(fens) + "\n", timeout=3600)
     reqs = [l for l in out.split("\n") if l.strip()]
     bad = [r for r in reqs if " MISSING " in r]
